@@ -286,10 +286,11 @@ def run_scenario(ctx, sermod, sc_, base):
     shutil.rmtree(d0)
     mc = model_case(sc_, fs0, ops_full)
     mout = json.loads(ctx.driver("serializer", [json.dumps(mc)])[0])
-    if mout.get("ops") != ops_full:
-        dis.append({"input": {"scenario": sc_.key()}, "model": mout.get("ops"), "impl": ops_full,
-                    "note": "primitive operation list of the dump write differs"})
-        return 1, dis, viols, cov
+    ops_agree = mout.get("ops") == ops_full
+    if not ops_agree:
+        # the crash points are still enumerated below, under the property monitor alone
+        dis.append({"input": {"scenario": sc_.key()}, "model": [o[:60] for o in (mout.get("ops") or [])],
+                    "impl": [o[:60] for o in ops_full], "note": "primitive operation list of the dump write differs"})
     completes = any(o.startswith("rename") for o in ops_full)
     old_data = expect_tuple(sc_.old_data(), sc_.user) if sc_.old else None
     new_data = expect_tuple(sc_.new_data(), sc_.user) if (completes and not sc_.bad) else None
@@ -305,6 +306,14 @@ def run_scenario(ctx, sermod, sc_, base):
         cases += 1
         cov["ops"] += 1
         cov["classes"][cls.split(":")[0]] = cov["classes"].get(cls.split(":")[0], 0) + 1
+        if not ops_agree:
+            if cls.startswith("torn") and len(viols) < 2:
+                viols.append({"signature": "serializer.dump:torn-at-crash-point:" + sc_.what,
+                              "what": "after a kill following primitive operation %d (%s) of %s (%s) a fresh Serializer finds a dump "
+                                      "file that is neither the old nor the new snapshot (%s)"
+                                      % (k, (ops_full[k - 1][:40] if k else "none"), sc_.what, sc_.name, cls),
+                              "replay": {"component": "corr.storage_dump", "scenario": sc_.key(), "crash_after": k}})
+            continue
         mimg = mout["images"][k]
         mcls = "absent" if mimg["dump"] is None else ("old" if mimg["dump"] == fs0["dump"] else
                                                       ("new" if completes and mimg["dump"] == new_img else "torn"))
